@@ -181,6 +181,8 @@ type Project struct {
 	CropOut     []OutCol          `json:"cropOut,omitempty"`
 	Automan     []AutoRow         `json:"automan,omitempty"`     // rows of automan.txt; nil = default rows for the crops of the rotation
 	OtherFields []string          `json:"otherFields,omitempty"` // extra field ids mixed into the schedule files (noise of other fields)
+	AltParams   bool              `json:"altParams,omitempty"`   // the parameter folder of this project holds OTHER tables than the shipped ones (sibling runs of a session)
+	Interleave  bool              `json:"interleave,omitempty"`  // schedule files sorted by date: lines of the other fields between the lines of this one
 	ExtraArgs   []string          `json:"extraArgs,omitempty"`
 	Arms        []string          `json:"arms,omitempty"`      // generator arms used (for the evidence)
 	UserCrops   map[string]string `json:"userCrops,omitempty"` // user-defined crop code -> shipped crop whose parameters it copies
@@ -455,7 +457,41 @@ func (p *Project) Write(root, paramSrc string) error {
 	if err := p.writeUserCrops(pdst); err != nil {
 		return err
 	}
+	if p.AltParams {
+		if err := alterParamTables(pdst); err != nil {
+			return err
+		}
+	}
 	return p.WriteWeather(root)
+}
+
+// alterParamTables rewrites tables of a parameter folder (a farm with its own fertilisers): total N content of every
+// fertiliser times 1.5, the directly available share of the organic ones halved. The folder stays a valid one.
+func alterParamTables(pdst string) error {
+	fn := filepath.Join(pdst, "FERTILIZ.TXT")
+	b, err := os.ReadFile(fn)
+	if err != nil {
+		return err
+	}
+	lines := strings.Split(strings.ReplaceAll(string(b), "\r\n", "\n"), "\n")
+	for i, ln := range lines {
+		if i == 0 || len(ln) < 14 {
+			continue
+		}
+		var ntot, ndir float64
+		if _, err := fmt.Sscanf(ln[4:9], "%f", &ntot); err != nil {
+			continue
+		}
+		if _, err := fmt.Sscanf(ln[10:14], "%f", &ndir); err != nil {
+			continue
+		}
+		ntot *= 1.5
+		if ndir < 1 {
+			ndir /= 2
+		}
+		lines[i] = ln[:4] + fmt.Sprintf("%05.2f %4.2f", ntot, ndir) + ln[14:]
+	}
+	return os.WriteFile(fn, []byte(strings.Join(lines, "\n")), 0644)
 }
 
 func copyDir(src, dst string) error {
@@ -648,6 +684,10 @@ func (p *Project) fertFile() string {
 	}
 	for _, e := range p.Fert {
 		sb.WriteString(fmt.Sprintf("%-9s %d %-3s %s\n", p.FieldID, e.Kg, e.Type, p.date(e.Date)))
+		if p.Interleave && len(p.OtherFields) > 0 {
+			of := p.OtherFields[e.Date%len(p.OtherFields)]
+			sb.WriteString(fmt.Sprintf("%-9s %d %-3s %s\n", of, 41, "KAS", p.date(e.Date)))
+		}
 	}
 	sb.WriteString("end\n")
 	return sb.String()
@@ -662,6 +702,10 @@ func (p *Project) irrFile() string {
 	}
 	for _, e := range p.Irr {
 		sb.WriteString(fmt.Sprintf("%-9s %d %d %s\n", p.FieldID, e.Mm, e.Ppm, p.date(e.Date)))
+		if p.Interleave && len(p.OtherFields) > 0 {
+			of := p.OtherFields[e.Date%len(p.OtherFields)]
+			sb.WriteString(fmt.Sprintf("%-9s %d %d %s\n", of, 17, 5, p.date(e.Date)))
+		}
 	}
 	sb.WriteString("end\n")
 	return sb.String()
@@ -676,6 +720,10 @@ func (p *Project) tillFile() string {
 	}
 	for _, e := range p.Till {
 		sb.WriteString(fmt.Sprintf("%-9s %d %d %s\n", p.FieldID, e.Cm, e.Type, p.date(e.Date)))
+		if p.Interleave && len(p.OtherFields) > 0 {
+			of := p.OtherFields[e.Date%len(p.OtherFields)]
+			sb.WriteString(fmt.Sprintf("%-9s %d %d %s\n", of, 12, 1, p.date(e.Date)))
+		}
 	}
 	sb.WriteString("end\n")
 	return sb.String()
